@@ -109,8 +109,8 @@ type scheme struct {
 	encBits  func(full bool) []int    // bit positions of the encapsulated key to flip
 	encSubst func(enc []byte) [][]byte // replacement encapsulated keys (invalid / other valid points, ...)
 	fullEnc  bool                      // sweep every encapsulated-key bit in this leaf
-	costly   bool                      // slow group operations: quick tier thins lengths and the second catalogue pass
-	heavy    bool                      // thorough: four catalogue passes instead of two
+	costly   bool                      // slow group operations: lengths {0,1,16,17,1000} and a lighter second catalogue pass ...
+	heavy    bool                      // ... except in thorough on the primary cell, which also gets four catalogue passes
 }
 
 func otherPrefixes(own []byte, id uint32) [][]byte {
@@ -171,7 +171,8 @@ func exercise(x *h.X, s *scheme, id uint32) {
 		}
 	}
 	lens := ptLens
-	if s.costly && !x.Thorough() {
+	thin := s.costly && !(x.Thorough() && s.heavy) // slow scheme: full density only in thorough on the primary cell
+	if thin {
 		lens = []int{0, 1, 16, 17, 1000}
 	}
 	for _, n := range lens {
@@ -305,7 +306,7 @@ func exercise(x *h.X, s *scheme, id uint32) {
 			rej("accept-prefix-edit", ct[pl:], info, "prefix removed")
 			rej("accept-prefix-edit", append(bytes.Clone(s.prefix), ct...), info, "prefix duplicated")
 		}
-		light := s.costly && !x.Thorough() && si > 0 // second pass of a slow scheme in quick: no enc sweep / cuts
+		light := thin && si > 0 // second pass of a thinned slow scheme: no enc sweep, cuts only around the ends
 		// encapsulated key: bits
 		for _, b := range s.encBits(s.fullEnc && si == 0) {
 			if light {
